@@ -855,9 +855,14 @@ func historyLabels(ct *Contract) map[string]bool {
 		walk(ca.Clause.Expr)
 	}
 	for _, ls := range ct.Loops {
-		for _, c := range ls.Invariants {
-			walk(c.Expr)
+		for _, cs := range [][]*Clause{ls.Invariants, ls.Steps, ls.Entry, ls.Assumes} {
+			for _, c := range cs {
+				walk(c.Expr)
+			}
 		}
+	}
+	for _, c := range ct.Assumes {
+		walk(c.Expr)
 	}
 	return out
 }
